@@ -24,6 +24,7 @@ pub fn from_str_radix(mut src: &str, radix: u32) -> Result<IBig, ParseError>
             }
         };
         /*@ proof {
+            lemma_starts1(s0, PLUS()); lemma_starts1(s0, MINUS());
             assert(src.b() == drop_sign(s0));
             if text_ok(src.b(), radix as int) { lemma_text_value_nonneg(src.b(), radix as int); }
         } @*/
